@@ -134,6 +134,18 @@ class StmtMixin:
         return [("normal", st, None)]
 
     def s_Assign(self, s, st):
+        lt = (self.contract.get("local_types") or {})
+        if len(s.targets) == 1 and isinstance(s.targets[0], ast.Name) and s.targets[0].id in lt and \
+                (isinstance(s.value, (ast.Dict, ast.List)) and not (getattr(s.value, "keys", None) or getattr(s.value, "elts", None))):
+            # empty literal whose element types come from the contract (python is untyped here)
+            v = self.make_value(lt[s.targets[0].id], st, "loc_" + s.targets[0].id)
+            o = st.mut(v)
+            if isinstance(o, HDict):
+                o.dom, o.size = z3.K(o.ksort, z3.BoolVal(False)), zint(0)
+            else:
+                o.n = zint(0)
+            st.bind(s.targets[0].id, v)
+            return [("normal", st, None)]
         if isinstance(s.value, ast.Call):
             outs = self.call_stmt(s.value, st)
         else:
@@ -404,8 +416,22 @@ class StmtMixin:
         return (self.contract.get("loops") or {}).get(self.loop_key(s), {})
 
     def mutated_roots(self, stmts, st):
-        """Names whose object may be mutated by the statements -> set of names."""
+        """Names whose object may be mutated by the statements -> set of names, or (name, attr)
+        when only one field of a named tuple is written (coo.row[...] = ...)."""
         out = set()
+
+        def add(e):
+            # e: Subscript/Attribute target expression
+            node = e
+            while isinstance(node, ast.Subscript):
+                node = node.value
+            if isinstance(node, ast.Attribute) and isinstance(node.value, ast.Name):
+                out.add((node.value.id, node.attr))
+                return
+            r = root_name(e)
+            if r:
+                out.add(r)
+
         for s in stmts:
             for n in ast.walk(s):
                 if isinstance(n, (ast.Assign, ast.AugAssign)):
@@ -413,16 +439,12 @@ class StmtMixin:
                     for t in tg:
                         for e in ([t] if not isinstance(t, ast.Tuple) else t.elts):
                             if isinstance(e, (ast.Subscript, ast.Attribute)):
-                                r = root_name(e)
-                                if r:
-                                    out.add(r)
+                                add(e)
                             elif isinstance(e, ast.Name) and isinstance(n, ast.AugAssign):
                                 out.add(e.id)  # numpy in-place
                 elif isinstance(n, ast.Call):
                     if isinstance(n.func, ast.Attribute) and n.func.attr in MUTATORS:
-                        r = root_name(n.func.value)
-                        if r:
-                            out.add(r)
+                        add(n.func.value)
                     else:
                         for argname in self.call_mutates(n, st):
                             out.add(argname)
@@ -516,8 +538,15 @@ class StmtMixin:
         names = assigned_names(body)
         muts = self.mutated_roots(body, st)
         for nm in muts:
+            attr = None
+            if isinstance(nm, tuple):
+                nm, attr = nm
+                if nm in muts:
+                    continue
             if nm in st.vars:
                 v, d = st.vars[nm]
+                if attr is not None and isinstance(v, Tup) and v.names and attr in v.names:
+                    v = v.items[v.names.index(attr)]
                 self.havoc_val(st, v, True)
         for nm in names | set(extra_names):
             if nm in st.vars:
